@@ -94,7 +94,7 @@ PROPS["C10"] = dict(
                 "'push succeeds iff the parent is in the tree'. Meaning of 'valid' is C11/C12 (unit valid).",
     unverified_links=[
         "heartbeat::maybe_process_response (closure passed to with_state_mut, consensus_decode): order of processing, counters, dropping the rest of a response",
-        "state::insert_next_block_headers (announced headers; entry-API NextBlockHeaders)",
+        "what insert_next_block_headers' callees decide (header decoder, ValidationContext::new_with_next_block_headers, HeaderValidator of unit valid, UnstableBlocks::insert_next_block_header: stand-ins); the function's own loop IS verified: total on any list of blobs, touches only the announced headers",
         "ValidationContext::new's second half (the `.map(..).collect()` pipeline building the header chain) and its glue; unstable_blocks::push body",
     ],
     assumptions=COMMON_ASSUMPTIONS + ["block.hash is the hash of block.header (ic_btc_types::Block)"],
